@@ -37,7 +37,7 @@ def run_property(prop, tier, seed, jobs, only=None):
     mods = D.load_modules()
     reg = D.registry(mods)
     known_all = D.load_known()
-    known = [k for k in known_all.get('findings', []) if k['property'] == prop]
+    known = [k for k in known_all.get('findings', []) if k['property'] == prop or prop in k.get('also_properties', [])]
     meta = {}
     for m in mods:
         meta.update(getattr(m, 'PROPERTIES', {}))
